@@ -17,7 +17,8 @@ current tree (same request answered by both, compared up to renaming of the new 
 
 What the theorems do not carry: the payload of an object is abstract (equality of dictionaries and stream
 bytes after the typed re-serialisation is the oracle's comparison on the real library), and resource
-categories other than ExtGState / Font / XObject are not copied by the code (D40, open): the full-strength
+categories other than ExtGState / Font / XObject / Properties are not copied by the code (D40, open
+for ColorSpace, Pattern, Shading): the full-strength
 statement `C20_full` is kept below with its counter-example.
 -/
 
@@ -69,7 +70,7 @@ theorem memo_stable (src : Src) (f n : Nat) (pages more : List PageM) :
   rw [e]
   exact ⟨h.2.map_ext, h.2.objs_ext⟩
 
-/-- **C20, resources** (`pruned_resources_cover_used`, categories ExtGState / Font / XObject). When a page
+/-- **C20, resources** (`pruned_resources_cover_used`, categories ExtGState / Font / XObject / Properties). When a page
     is imported successfully after any history: for every operation naming a resource of a category
     `deep_clone_op` looks at, if the page's resources have an entry of that name, the new page's resources
     have an entry of the same name that is a copy of it (same payload, references mapped); the new table
@@ -209,7 +210,7 @@ def C20_full : Prop :=
         Mapped (clonePage f src p (after f src n before)).2.map ent.kids ks
 
 /-- The proved part: the categories `deep_clone_op` handles (the explicit, decidable exclusion is
-    `handled k = true`, i.e. k ∈ {ExtGState, Font, XObject}). -/
+    `handled k = true`, i.e. k ∈ {ExtGState, Font, XObject, Properties}). -/
 theorem C20_partial (src : Src) (f n : Nat) (before : List PageM) (p : PageM) (out : PageOut)
     (hok : (clonePage f src p (after f src n before)).1 = .ok out)
     (k : RKind) (name : Nat) (hop : OpM.use k name ∈ p.ops) (hk : handled k = true)
@@ -219,7 +220,7 @@ theorem C20_partial (src : Src) (f n : Nat) (before : List PageM) (p : PageM) (o
   (pruned_resources_cover_used src f n before p out hok).cover k name hop hk ent hent
 
 /-- **D40** (open): a page that sets a named colour space imports "successfully" without it. The same
-    witness with `.pattern`, `.shading` or `.properties` behaves alike. -/
+    witness with `.pattern` or `.shading` behaves alike (`.properties` is copied since its repair). -/
 theorem C20_counterexample : ¬ C20_full := by
   intro h
   have := h (srcOf []) 1 0 [] ⟨[.use .colorspace 1], [((.colorspace, 1), ⟨5, []⟩)], []⟩ ⟨[], []⟩ (by decide)
@@ -227,7 +228,7 @@ theorem C20_counterexample : ¬ C20_full := by
   obtain ⟨ks, hks, _⟩ := this
   simp [resGet] at hks
 
-example : ∀ k, handled k = false ↔ k = .colorspace ∨ k = .pattern ∨ k = .shading ∨ k = .properties := by
+example : ∀ k, handled k = false ↔ k = .colorspace ∨ k = .pattern ∨ k = .shading := by
   intro k; cases k <;> simp [handled]
 
 end Import
